@@ -1,5 +1,5 @@
 import NeoFS.Lemmas.NetmapRing
-/-! # C08: every HALTing `updateSnapshotCount K` (`K ≤ 256`) preserves `RingInv`, for all old counts,
+/-! # C08: every HALTing `updateSnapshotCount K` preserves `RingInv`, for all old counts,
 ring positions and elapsed epochs. -/
 namespace NeoFS.NetmapRing
 open NeoFS
@@ -70,6 +70,7 @@ theorem updateSnapshotCount_nat (s : State) (env : Env) (new : Nat) :
     updateSnapshotCount s env (new : Int) =
       if !env.alphabet then none
       else if (new : Int) ≤ 0 then none
+      else if (new : Int) > 256 then none
       else if s.count = new then none
       else if s.count < new then
         match applyMoves s.ring (growMoves s.count new s.id) with
@@ -96,7 +97,7 @@ theorem updateSnapshotCount_nat (s : State) (env : Env) (new : Nat) :
 
 theorem resize_some_nat (s s' : State) (env : Env) (new : Nat)
     (h : updateSnapshotCount s env (new : Int) = some s') :
-    env.alphabet = true ∧ 0 < new ∧ s.count ≠ new ∧
+    env.alphabet = true ∧ 0 < new ∧ new ≤ 256 ∧ s.count ≠ new ∧
     ((s.count < new ∧ ∃ r r',
         applyMoves s.ring (growMoves s.count new s.id) = some r ∧
         delSlots r (upTo (s.id + 1) (if s.count < s.id + 1 + (new - s.count) then s.count
@@ -116,10 +117,13 @@ theorem resize_some_nat (s s' : State) (env : Env) (new : Nat)
     by_cases hk : (new : Int) ≤ 0
     · rw [if_pos hk] at h; exact absurd h (by simp)
     · rw [if_neg hk] at h
+      by_cases hu : (new : Int) > 256
+      · rw [if_pos hu] at h; exact absurd h (by simp)
+      rw [if_neg hu] at h
       by_cases hc : s.count = new
       · rw [if_pos hc] at h; exact absurd h (by simp)
       · rw [if_neg hc] at h
-        refine ⟨ha, by omega, hc, ?_⟩
+        refine ⟨ha, by omega, by omega, hc, ?_⟩
         by_cases hg : s.count < new
         · left
           rw [if_pos hg] at h
@@ -147,14 +151,27 @@ theorem resize_some_nat (s s' : State) (env : Env) (new : Nat)
               exact ⟨by omega, r, r', rfl, h2, h.symm⟩
   · simp [ha] at h
 
-theorem resize_pos (s s' : State) (env : Env) (k : Int) (h : updateSnapshotCount s env k = some s') :
-    0 < k := by
+/-- an accepted count is positive and at most 256 (the two guards) -/
+theorem resize_bounds (s s' : State) (env : Env) (k : Int) (h : updateSnapshotCount s env k = some s') :
+    0 < k ∧ k ≤ 256 := by
   unfold updateSnapshotCount at h
   by_cases ha : env.alphabet = true
   · by_cases hk : k ≤ 0
     · simp [ha, hk] at h
-    · omega
+    · by_cases hu : k > 256
+      · simp [ha, hk, hu] at h
+      · omega
   · simp [ha] at h
+
+theorem resize_pos (s s' : State) (env : Env) (k : Int) (h : updateSnapshotCount s env k = some s') :
+    0 < k := (resize_bounds s s' env k h).1
+
+/-- `count > 256` is refused (FAULT), whoever signs and whatever the state -/
+theorem resize_above_refused (s : State) (env : Env) (k : Int) (hk : 256 < k) :
+    updateSnapshotCount s env k = none := by
+  cases h : updateSnapshotCount s env k with
+  | none => rfl
+  | some s' => have := (resize_bounds s s' env k h).2; omega
 
 /-! ### the node lists after the drop loop -/
 
@@ -323,16 +340,16 @@ theorem inv_shrink (s : State) (p : Spec) (h : RingInv s p) (new : Nat) (r r' : 
     · rw [if_neg (by omega), if_neg (by omega)]
       exact h.ring_beyond j (by omega)
 
-/-- **Every HALTing `updateSnapshotCount K` with `K ≤ 256` preserves the invariant** — all old counts,
-all ring positions, all elapsed epochs. -/
-theorem inv_resize (s s' : State) (p : Spec) (env : Env) (k : Int) (h : RingInv s p) (hk : k ≤ 256)
+/-- **Every HALTing `updateSnapshotCount K` preserves the invariant** — all old counts, all ring positions,
+all elapsed epochs (the guards of the method give `1 ≤ K ≤ 256`). -/
+theorem inv_resize (s s' : State) (p : Spec) (env : Env) (k : Int) (h : RingInv s p)
     (hr : updateSnapshotCount s env k = some s') : RingInv s' (p.resize k.toNat) := by
-  have hpos := resize_pos s s' env k hr
+  obtain ⟨hpos, _⟩ := resize_bounds s s' env k hr
   obtain ⟨new, rfl⟩ : ∃ new : Nat, k = (new : Int) := ⟨k.toNat, by omega⟩
   rw [Int.toNat_natCast]
-  obtain ⟨_, _, _, hcase⟩ := resize_some_nat s s' env new hr
+  obtain ⟨_, _, hle, _, hcase⟩ := resize_some_nat s s' env new hr
   rcases hcase with ⟨hlt, r, r', h1, h2, rfl⟩ | ⟨hlt, r, r', h1, h2, rfl⟩
-  · exact inv_grow s p h new r r' hlt (by omega) h1 h2
+  · exact inv_grow s p h new r r' hlt hle h1 h2
   · exact inv_shrink s p h new r r' hlt (by omega) h1 h2
 
 end NeoFS.NetmapRing
